@@ -254,6 +254,10 @@ func (o *skOrigin) Do(req *http.Request) (*http.Response, error) {
 	if v := skVaryOf(uri); v != "" {
 		h.Set("Vary", v)
 	}
+	if strings.Contains(uri, "etg") {
+		// stream condpair (C09): a resource with an entity tag
+		h.Set("ETag", "\"e1\"")
+	}
 	h.Set("X-Sk-Echo", echo)
 	h.Set("Content-Length", strconv.Itoa(len(body)))
 	resp := &http.Response{Status: "200 OK", StatusCode: 200, Proto: "HTTP/1.1", ProtoMajor: 1, ProtoMinor: 1,
